@@ -255,7 +255,7 @@ func vC06DescribeNet(c *vh.Case, sc vC06Sc, d *vC06Lookup, n *vNet) {
 func TestVerif_C06_putvalue(t *testing.T) {
 	vh.Run(t, vh.Spec{Prop: "C06", Unit: "putvalue", Quick: 700, Thorough: 25000, CostMs: 6,
 		Rule:    "PRNG networks as C01 (N 1-250, thorough up to 850; K/alpha/beta menus; knowledge full/kbucket/sparse; 0-40% peers failing the lookup by dial/request/silence); 0-70% of the peers fail the PUT_VALUE (stream error / silent until the 10 s read timeout / slower than the 30 s per-peer timeout); local store empty or holding a worse, equal or better record; one PutValue under lookup-event registration; oracle: local datastore journal at the instant the first PUT_VALUE is handed to the sender, recipients and payloads of the PUT_VALUE log vs R recomputed from the embedded lookup's events; non-trivial = the lookup returned >= 2 peers and at least one recipient failed or more than K peers were learned; distinct by (shape, behaviour mix, response arrival order)",
-		Clauses: []string{"put-one-per-closest", "put-only-to-closest", "put-same-record", "local-write-before-first-put", "local-record-stored", "healthy-recipient-got-record", "put-despite-failures"}},
+		Clauses: []string{"put-one-per-closest", "put-only-to-closest", "put-same-record", "local-write-before-first-put", "local-record-stored", "healthy-recipient-got-record", "put-despite-failures", "refused-local-write-sends-nothing"}},
 		func(c *vh.Case) {
 			r := c.R
 			sc := vC06GenSc(c)
@@ -325,6 +325,29 @@ func TestVerif_C06_putvalue(t *testing.T) {
 						}
 					}
 				}
+				// racer class: a better record for the same key (as an incoming PUT_VALUE would store it) lands exactly between
+				// PutValue's own pre-check of the local record and the value store's locked read-select-write - the store
+				// validates a record before it takes the key's lock, which is where the second Validate call of this value
+				// happens. The local write is then refused: PutValue must fail and send nothing.
+				racer := c.Idx%8 == 3 && (local == "none" || local == "worse") && sc.CancelAt == 0
+				raced := false
+				if racer {
+					better := vC04Val{ID: 9, Rank: 8, Key: key}.Bytes()
+					seen := 0
+					val.OnValidate = func(k string, v []byte) {
+						if k != key || string(v) != string(value) {
+							return
+						}
+						seen++
+						if seen == 2 && !raced {
+							raced = true
+							if err := n.D.valueStore.Put(ctx0, key, &recpb.Record{Key: []byte(key), Value: better}); err != nil {
+								panic(fmt.Sprintf("racer: storing the better record failed: %v", err))
+							}
+						}
+					}
+				}
+				c.Set("better_record_lands_between_precheck_and_store", racer)
 				synctest.Wait()
 				tableSize := n.D.routingTable.Size()
 				ctx, cancel := context.WithCancel(context.Background())
@@ -336,6 +359,7 @@ func TestVerif_C06_putvalue(t *testing.T) {
 				}
 				start := time.Now()
 				err := n.D.PutValue(lctx, key, value)
+				val.OnValidate = nil
 				end := time.Now()
 				cancelled := ctx.Err() != nil
 				storedAtReturn := journaled()
@@ -369,6 +393,12 @@ func TestVerif_C06_putvalue(t *testing.T) {
 				}
 				if fr == 1 {
 					c.Obs("local_write_before_first_rpc", 1)
+				}
+				if raced {
+					// the local write was refused (a better record is stored now): "has stored the record locally first and
+					// sends that same record" cannot be met, so PutValue must fail and must not have sent anything
+					c.Check(err != nil && tot == 0, "refused-local-write-sends-nothing", "a better record landed between PutValue's pre-check and the store's locked write: PutValue returned %v and handed %d PUT_VALUE to the sender, while the local store holds the other record (stored own record: %v)", err, tot, storedAtReturn)
+					return
 				}
 				if local == "better" {
 					c.Obs("refused_better_stored", 1)
